@@ -200,7 +200,8 @@ def plain_job(job):
     """A mean-field system that ignores the field evolves as in a plain TEMPO run: explicitly time-dependent
     Hamiltonian, Lindblad rate and Lindblad operator, both mean-field methods against Tempo."""
     import oqupy
-    seed, t0 = job
+    seed, t0 = job[0], job[1]
+    subdiv = job[2] if len(job) > 2 else "default"           # "none": the Liouvillian is sampled, not integrated
     dt, n = 0.125, 4
     sx = np.array([[0, 1], [1, 0]], dtype=complex)
     sz = np.diag([1.0 + 0j, -1.0])
@@ -213,7 +214,8 @@ def plain_job(job):
     out = []
     try:
         bath = oqupy.Bath(0.5 * sz, probes.make_probe_sd(w, dt))
-        params = oqupy.TempoParameters(dt=dt, epsrel=1e-13, dkmax=3)
+        pkw = {"subdiv_limit": None} if subdiv == "none" else {}
+        params = oqupy.TempoParameters(dt=dt, epsrel=1e-13, dkmax=3, **pkw)
         end = t0 + n * dt + dt / 4
         ref = oqupy.Tempo(oqupy.TimeDependentSystem(ham, gammas=[gam], lindblad_operators=[lop]), bath, params, rho.copy(),
                           t0).compute(end, progress_type="silent")
@@ -224,7 +226,7 @@ def plain_job(job):
         a = oqupy.MeanFieldTempo(mk(), [bath], params, [rho.copy()], 0.3 - 0.1j, t0).compute(end, progress_type="silent")
         pt = oqupy.PtTempo(bath, t0, end, params).get_process_tensor(progress_type="silent")
         b = oqupy.compute_dynamics_with_field(mk(), 0.3 - 0.1j, process_tensor_list=[pt], initial_state_list=[rho.copy()],
-                                              start_time=t0, progress_type="silent")
+                                              start_time=t0, progress_type="silent", **pkw)
     except Exception as ex:  # pylint: disable=broad-except
         return [{"what": "exception", "detail": "%s: %s" % (type(ex).__name__, str(ex)[:150])}]
     for name, res in (("MeanFieldTempo", a), ("compute_dynamics_with_field", b)):
@@ -267,9 +269,9 @@ def run(ctx):
         ctx.case({"agreement": {"t0": j[1], "systems": j[2], "dkmax": j[3]}}, nontrivial=True)
         for x in mm:
             ctx.violation("C09:agreement:%s" % x["what"], "%s: %s" % (j, x), {"agreement": list(j)})
-    pjobs = [(ctx.seed, t0) for t0 in (0.0, 1.0, -0.75)]
+    pjobs = [(ctx.seed, t0) for t0 in (0.0, 1.0, -0.75)] + [(ctx.seed, t0, "none") for t0 in (0.0, 0.5)]
     for j, mm in zip(pjobs, core.pmap(plain_job, pjobs)):
-        ctx.case({"field_independent_vs_tempo": {"t0": j[1]}}, nontrivial=True)
+        ctx.case({"field_independent_vs_tempo": {"t0": j[1], "subdiv_limit": "None" if len(j) > 2 else "default"}}, nontrivial=True)
         for x in mm:
             ctx.violation("C09:plain:%s" % x["what"], "%s: %s" % (j, x), {"plain": list(j)})
     ctx.rule = ("every configuration of MeanField.tla (7 equations of motion x 3 start times x 2 initial fields x 3 system "
